@@ -32,6 +32,11 @@ RULE = ('A: objects of N=0..12 segments x every discovery answer (segment k<N, u
         '1, 50/100/150, width boundaries up to 2^64-1, non-shortest encodings), plus a table reason form x nacked key '
         '(discovery, first, middle, last segment) x losses before the Nack (0, retry-1); A/B: the InterestNack raised by the '
         'simulated network carries reasons from the same value set and the fetch must end with that reason. '
+        'unsegmented objects (A and C): the name of the object relative to the fetched name - EQUAL (the CanBePrefix discovery '
+        'Interest is answered by a Data with exactly its name), one component below, two or more below - in every sampled '
+        'scenario with an unsegmented discovery answer and as a table relation x 9 shapes of the fetched name (1/3 generic '
+        'components, trailing version / sequence / byte-offset / timestamp / keyword / empty component, long component) x '
+        'discovery losses {0, r-1, r, r+1} x retry_times {1, 3} (A: x prefix mode; C: through the real pending-Interest table). '
         'non-trivial = at least one Interest answered with Data and at least two Interests sent; distinct by case hash')
 ASSUMPTIONS = ['asyncio scheduling is irrelevant here: the fetcher awaits one coroutine at a time (sequential by construction)',
                'Name.normalize of the name argument is C09; the model starts from the normalised name',
@@ -355,19 +360,45 @@ def gen_base(rng):
     return nb(G.name_of_tv(tvs))
 
 
-def mk_scenario(rng, N, disc_k, style, fates, prefix_mode=0):
-    base = gen_base(rng)
-    if rng.random() < 0.4:
-        base = base + [bytes([54, 1, rng.randrange(256)])]       # a version component
+WHOLE_RELS = ['equal', 'child', 'deeper']
+WHOLE_LAST = [bytes([8, 1, 0x78]), bytes([8, 0]), bytes([54, 1, 3]), bytes([52, 1, 0]), bytes([253, 0, 51, 1, 0])]
+
+
+def whole_name(rng, base, prefix, rel):
+    """Name of an unsegmented object relative to the fetched name: 'equal' = published under exactly the name that
+    is fetched (the discovery Interest is CanBePrefix and its answer has the SAME name); 'child' / 'deeper' = one /
+    two or more components below it.  The last component is never a segment (Spec wf_scenario)."""
+    if rel == 'equal' and prefix:
+        return list(prefix)
+    if rel == 'deeper':
+        return base + [rng.choice([bytes([8, 1, 0x6d]), bytes([54, 1, 9]), bytes([8, 0])]), rng.choice(WHOLE_LAST)]
+    return base + [rng.choice(WHOLE_LAST)]
+
+
+def mk_scenario(rng, N, disc_k, style, fates, prefix_mode=0, whole_rel=None, base=None):
+    if base is None:
+        base = gen_base(rng)
+        if rng.random() < 0.4:
+            base = base + [bytes([54, 1, rng.randrange(256)])]       # a version component
     prefix = base if prefix_mode == 0 else base[:max(0, len(base) - 1)]
     contents = [bytes([i, 0x63]) + G.rand_bytes(rng, rng.randint(0, 3)) for i in range(N)]
     if disc_k is None:
-        last = rng.choice([bytes([8, 1, 0x78]), bytes([8, 0]), bytes([54, 1, 3]), bytes([52, 1, 0]), bytes([253, 0, 51, 1, 0])])
-        disc = ('whole', base + [last], b'whole' + G.rand_bytes(rng, 2), rng.choice([None, last, seg(0)]))
+        nm = whole_name(rng, base, prefix, whole_rel or rng.choice(['equal', 'equal', 'child', 'child', 'deeper']))
+        last = nm[-1]
+        disc = ('whole', nm, b'whole' + G.rand_bytes(rng, 2), rng.choice([None, last, seg(0)]))
     else:
         disc = ('seg', disc_k)
     return {'base': base, 'nseg': N, 'contents': contents, 'markers': gen_markers(rng, N, style),
             'prefix': prefix, 'disc': disc, 'fates': fates}
+
+
+def unsegmented_bases():
+    """Shapes of the name an unsegmented object is fetched by: one generic component, several, a trailing version /
+    sequence-number / byte-offset / timestamp / keyword-like typed component, an empty component, a long component."""
+    g = lambda t: bytes([8, len(t)]) + t      # noqa
+    return [[g(b'obj')], [g(b'a'), g(b'b'), g(b'c')], [g(b'obj'), bytes([54, 1, 7])], [g(b'obj'), bytes([58, 2, 1, 0])],
+            [g(b'obj'), bytes([52, 1, 0])], [g(b'obj'), bytes([56, 1, 200])], [g(b'd'), bytes([8, 0])],
+            [g(b'n'), bytes([32, 1, 0x41])], [g(b'x' * 40), g(b'y')]]
 
 
 def fates_from(losses, faults=None):
@@ -492,6 +523,16 @@ def stream_a(ctx, loop):
                     losses = dict(zip(keys, combo))
                     s = mk_scenario(rng, N, disc_k, 'exact', fates_from(losses))
                     run_scenario(ctx, loop, s, retry, 4000, True, rng.choice([0, 0, 1, 2]), 'A.exhaustive')
+    # unsegmented objects: name relation to the fetched name (equal / one below / deeper) x shape of the fetched name
+    # x discovery losses around the limit x retry_times x call style; the single content is yielded once, then Completed
+    for rel in WHOLE_RELS:
+        for base in unsegmented_bases():
+            for retry in (1, 3):
+                for lost in loss_patterns(retry):
+                    for pm in (0, 1):
+                        s = mk_scenario(rng, rng.choice([0, 1, 3]), None, 'exact', fates_from({None: lost}), prefix_mode=pm,
+                                        whole_rel=rel, base=base)
+                        run_scenario(ctx, loop, s, retry, 4000, True, rng.choice([0, 1, 2]), 'A.unsegmented-' + rel)
     # N = 0: nothing published
     for retry in range(0, 5):
         s = mk_scenario(rng, 0, 0, 'exact', {None: ([], LOST)})
